@@ -75,6 +75,20 @@ def strategy(tier):
         free_states = [q for q in names if q not in inferred_states]
         if inferred_states and free_states and draw(st.booleans()):
             constraint = draw(st.sampled_from(free_states))
+            # the constrained state starts at pop_size minus the others: the priors of the inferred states must not be able to
+            # push it below zero (a negative compartment makes the generated models explode), so they become uniform priors
+            # whose upper ends share 90% of the constrained state's value
+            x0c = c["setup"]["x0"][names.index(constraint)]
+            room = 0.9 * x0c / len(inferred_states)
+            for pr in priors:
+                if pr["name"] in inferred_states:
+                    v = c["setup"]["x0"][names.index(pr["name"])]
+                    if x0c <= 0 or v <= 0:
+                        constraint = None
+                        break
+                    lo_ = S.sig(v * 0.6, 4)
+                    hi_ = S.sig(v + min(room, 1.2 * v), 4)
+                    pr.update(dist="unif", pars=[lo_, max(hi_, S.sig(lo_ + 1e-3, 4))], log=False)
         G = draw(st.integers(1, 3))
         sched = draw(st.sampled_from(["list", "quantile", "quantile-inf"])) if G > 1 else "single"
         steps = draw(st.sampled_from([0, 0, 1, 2]))
